@@ -30,44 +30,44 @@ type hyp struct {
 
 // Exec is one verification run of one function (one SMT universe).
 type Exec struct {
-	prog      *Program
-	b         *smt.Builder
-	so        *Sorts
-	fp        bool
-	safety    bool
-	root      *ssa.Function
-	rootC     *FuncContract
-	hyps      []*smt.Term
-	obls      []*Obligation
-	initHeaps map[string]*smt.Term
-	heapSorts map[string]string
-	strLits   map[string]*smt.Term
-	dry       int
-	actCount  int
-	stack     []*ssa.Function
-	Assumed   map[string]bool // assumptions / abstractions used (for evidence)
-	oblNames  map[string]int
-	freshRefs []*smt.Term
-	paramRefs []*smt.Term
-	ufDecl    map[string]bool
-	maxInline int
-	defUnroll int
-	ghostSeq  int
-	covers    []*Obligation
-	pendingInv []*invHook
-	allocBudget func(bc *blockCtx, n *smt.Term) *smt.Term
+	prog                 *Program
+	b                    *smt.Builder
+	so                   *Sorts
+	fp                   bool
+	safety               bool
+	root                 *ssa.Function
+	rootC                *FuncContract
+	hyps                 []*smt.Term
+	obls                 []*Obligation
+	initHeaps            map[string]*smt.Term
+	heapSorts            map[string]string
+	strLits              map[string]*smt.Term
+	dry                  int
+	actCount             int
+	stack                []*ssa.Function
+	Assumed              map[string]bool // assumptions / abstractions used (for evidence)
+	oblNames             map[string]int
+	freshRefs            []*smt.Term
+	paramRefs            []*smt.Term
+	ufDecl               map[string]bool
+	maxInline            int
+	defUnroll            int
+	ghostSeq             int
+	covers               []*Obligation
+	pendingInv           []*invHook
+	allocBudget          func(bc *blockCtx, n *smt.Term) *smt.Term
 	arrayPtrInSliceSpace bool
-	spec      int
-	qseq      int
-	havocAllOnCall bool
-	rangeOf   map[*ssa.Range]types.Type
-	distinct  map[[2]int]bool
-	freshSet  map[int]bool
-	recips    map[int]*smt.Term
-	closures  map[int]*Val
-	rootInfo  *rootInfo
-	exprTypes map[Expr]types.Type
-	oldSet    map[int]bool
+	spec                 int
+	qseq                 int
+	havocAllOnCall       bool
+	rangeOf              map[*ssa.Range]types.Type
+	distinct             map[[2]int]bool
+	freshSet             map[int]bool
+	recips               map[int]*smt.Term
+	closures             map[int]*Val
+	rootInfo             *rootInfo
+	exprTypes            map[Expr]types.Type
+	oldSet               map[int]bool
 }
 
 func (x *Exec) axiom(t *smt.Term) {
@@ -102,6 +102,11 @@ func (x *Exec) oblige(kind, name string, guard, goal *smt.Term, pos token.Pos, t
 	parts := []*smt.Term{goal}
 	if goal.Op == "and" && len(goal.Args) <= 16 {
 		parts = goal.Args
+	} else if goal.Op == "=>" && goal.Args[1].Op == "and" && len(goal.Args[1].Args) <= 16 {
+		parts = nil
+		for _, c := range goal.Args[1].Args {
+			parts = append(parts, x.b.Implies(goal.Args[0], c))
+		}
 	}
 	nh := len(x.hyps)
 	for i, g := range parts {
@@ -115,7 +120,11 @@ func (x *Exec) oblige(kind, name string, guard, goal *smt.Term, pos token.Pos, t
 		}
 		x.obls = append(x.obls, o)
 	}
-	x.assume(guard, goal)
+	if kind != "oncall" {
+		// (facts about callback arguments are not needed downstream and would
+		// only burden later nonlinear queries)
+		x.assume(guard, goal)
+	}
 }
 
 // Frame is one function activation.
@@ -155,9 +164,9 @@ type loop struct {
 }
 
 type loopInfo struct {
-	loops    []*loop                    // in ordinal order
-	byHeader map[*ssa.BasicBlock]*loop  // header -> loop
-	innerOf  map[*ssa.BasicBlock]*loop  // innermost loop containing block
+	loops    []*loop                   // in ordinal order
+	byHeader map[*ssa.BasicBlock]*loop // header -> loop
+	innerOf  map[*ssa.BasicBlock]*loop // innermost loop containing block
 	rpo      []*ssa.BasicBlock
 	rpoIdx   map[*ssa.BasicBlock]int
 }
